@@ -31,7 +31,9 @@ func VerifRemoveFromCollection(col ItemCollection, items ...Item) ItemCollection
 	return removeFromCollection(col, items...)
 }
 
-func VerifRemoveFromAudience(a *Activity, items ...Item) error { return removeFromAudience(a, items...) }
+func VerifRemoveFromAudience(a *Activity, items ...Item) error {
+	return removeFromAudience(a, items...)
+}
 
 func VerifGobEncodeItem(it Item) ([]byte, error) { return gobEncodeItem(it) }
 
